@@ -777,7 +777,6 @@ impl Model {
                             Some(m) if m != 0 => (m & 0o7777) | 0o100000,
                             _ => e.mode,
                         };
-                        free_mode.push(dst.clone());
                     },
                     _ => conflict = true,
                 },
@@ -1182,7 +1181,7 @@ impl Model {
                         // like chdir: lands in the directory the link points to (or is refused)
                         let mut t2 = self.t.clone();
                         t2.cwd = self.t.nodes[&p].target.clone().unwrap_or_default();
-                        vec![alt(ok(Val::Path(p.clone())), st(t2)), alt(ok(Val::Path(p)), st(t)), alt(Expect::ErrAny, Next::Same)]
+                        vec![alt(ok(Val::Path(p.clone())), st(t2)), alt(Expect::ErrAny, Next::Same)]
                     },
                     _ => vec![alt(ok(Val::Path(p)), st(t)), alt(Expect::ErrAny, Next::Same)],
                 }
